@@ -45,8 +45,7 @@ sys.path.insert(0, os.path.join(core.VERIF, "tools"))
 def root_cause(kind):
     if kind in KINDS_RDFLIB:
         return "C19-F1"
-    if kind in KINDS_ENDPOINT:
-        return "C19-F2"
+    # endpoint kinds: C19-F2 is fixed (target nodes keep their insertion order): must be deterministic
     if kind in KINDS_RANDOM_ALLOWED:
         return "allowed"      # the property's own exception: all four priority prefixes taken
     return None
@@ -362,9 +361,11 @@ def run(tier, seed, replay=None):
     elif not bs.model_ok:
         run.notes.append("model binary unavailable: " + bs.model_log[-800:])
 
-    # ---- pinned reproducers
-    for fid in sorted(known_ids):
+    # ---- pinned reproducers: known findings must still differ, fixed ones must agree (regression)
+    for fid in sorted(findings):
         f = findings[fid]
+        if f.get("status") not in ("known", "fixed") or "seeds" not in f.get("reproducer", {}):
+            continue
         rp = f["reproducer"]
         pj = os.path.join(D, "kf_%s_%d.json" % (fid, os.getpid()))
         import rdflib
@@ -376,7 +377,12 @@ def run(tier, seed, replay=None):
                                                                    "fmt": rp["fmt"]}]}, fh)
         r = run_seeds(pj, rp["seeds"])
         ds = {r[s].get("kf") for s in rp["seeds"]}
-        if len(ds) > 1:
+        if f.get("status") == "fixed":
+            if len(ds) > 1:
+                differing.append(({"id": "regression " + fid, "graph": "kf", "kind": rp["kind"], "fmt": rp["fmt"]},
+                                  {d: [s for s in rp["seeds"] if r[s].get("kf") == d] for d in ds}))
+                graphs["kf"] = rp["graph"]
+        elif len(ds) > 1:
             run.known_finding(fid, "%s [%d digests over PYTHONHASHSEED in %r]" % (f["what"], len(ds), rp["seeds"]))
         else:
             run.notes.append("finding %s no longer reproduces" % fid)
